@@ -41,6 +41,14 @@ B = [
    '\tvhook("lock-req", "cfg", &s.idpConfigMu)\n\ts.idpConfigMu.Lock()\n\tvhook("lock-acq", "cfg", &s.idpConfigMu)\n\tvhook("write", "sps", &s.idpConfigMu)\n\tdelete(s.serviceProviders, r.PathValue("id"))\n\tvhook("write-end", "sps", &s.idpConfigMu)\n\tvhook("unlock", "cfg", &s.idpConfigMu)\n\ts.idpConfigMu.Unlock()\n\n\tw.WriteHeader(http.StatusNoContent)\n}',
    '\tfunc() {\n\t\tvhook("lock-req", "cfg", &s.idpConfigMu)\n\t\ts.idpConfigMu.Lock()\n\t\tvhook("lock-acq", "cfg", &s.idpConfigMu)\n\t\tdefer s.idpConfigMu.Unlock()\n\t\tdefer vhook("unlock", "cfg", &s.idpConfigMu)\n\t\tvhook("write", "sps", &s.idpConfigMu)\n\t\tdelete(s.serviceProviders, r.PathValue("id"))\n\t\tvhook("write-end", "sps", &s.idpConfigMu)\n\t}()\n\n\tw.WriteHeader(http.StatusNoContent)\n}')],
   ["C20", "C19", "C05"]),
+ ("enc-cert-validity-refused", [("identity_provider.go",
+   '\tcert, err := x509.ParseCertificate(certBytes)\n\tif err != nil {\n\t\treturn nil, fmt.Errorf("cannot parse certificate: %v", err)\n\t}\n\treturn cert, nil\n}',
+   '\tcert, err := x509.ParseCertificate(certBytes)\n\tif err != nil {\n\t\treturn nil, fmt.Errorf("cannot parse certificate: %v", err)\n\t}\n\tif req.Now.Before(cert.NotBefore) || req.Now.After(cert.NotAfter) {\n\t\treturn nil, fmt.Errorf("the service provider\'s encryption certificate is not valid at this time")\n\t}\n\treturn cert, nil\n}')],
+  ["C08", "C06", "C07"]),
+ ("response-without-assertion-refused", [("identity_provider.go",
+   '\tif req.ResponseEl == nil {\n\t\tif err := req.MakeResponse(); err != nil {\n\t\t\treturn form, err\n\t\t}\n\t}',
+   '\tif req.ResponseEl == nil {\n\t\tif err := req.MakeResponse(); err != nil {\n\t\t\treturn form, err\n\t\t}\n\t}\n\tif len(req.ResponseEl.ChildElements()) < 3 {\n\t\treturn form, fmt.Errorf("response is incomplete")\n\t}')],
+  ["C06", "C08", "C05"]),
  ("session-ids-hex", [("samlidp/session.go", 'base64.StdEncoding.EncodeToString(randomBytes(32))', 'hex.EncodeToString(randomBytes(32))'),
                      ],
   ["C19", "C20", "C07"]),
